@@ -989,6 +989,7 @@ package tbtc
 //@   assert call:TransactionBuilder.AddOutput : [even-split-with-the-remainder-on-the-last-to-the-targets-witness-script] arg0.PublicKeyScript == @p2wpkhOf(targetWallets[i]) && arg0.Value == singleOutputValue + ite(i == len(targetWallets) - 1, remainder, 0) && singleOutputValue * len(targetWallets) + remainder == walletMainUtxo.Value - fee
 //@   loop 1 invariant ghost.txOuts == rangeidx1 && ghost.txIns == 1 && ghost.txIn == walletMainUtxo.Value && ghost.txOut == rangeidx1 * singleOutputValue + ite(rangeidx1 == len(targetWallets), remainder, 0)
 
+//@ ghost redChange int
 //@ func assembleRedemptionTransaction
 //@   property C26
 //@   arith math
@@ -996,7 +997,9 @@ package tbtc
 //@   requires forall k int :: 0 <= k && k < len(requests) ==> requests[k] != nil
 //@   modifies ghost.txIn, ghost.txOut, ghost.txIns, ghost.txOuts, ghost.txLastIn, ghost.txLastOut, alloc
 //@   ensures [spends-exactly-the-main-utxo] err == nil ==> ghost.txIns == 1 && ghost.txIn == walletMainUtxo.Value
-//@   ensures [one-output-per-request-plus-an-optional-change] err == nil ==> ghost.txOuts == len(requests) || ghost.txOuts == len(requests) + 1
+//@   modifies ghost.redChange
+//@   yields ghost.redChange = changeOutputValue
+//@   ensures [one-output-per-request-plus-the-change-whenever-it-is-positive] err == nil ==> ghost.txOuts == len(requests) + ite(ghost.redChange > 0, 1, 0)
 //@   loop 1 invariant [each-redeemer-gets-its-script-and-amount-minus-treasury-fee-minus-fee-share] len(outputs) == rangeidx1 && (forall k int :: 0 <= k && k < rangeidx1 ==> outputs[k] != nil && allocated(outputs[k]) && outputs[k].PublicKeyScript == requests[k].RedeemerOutputScript && outputs[k].Value == requests[k].RequestedAmount - requests[k].TreasuryFee - feeShares[k])
 //@   loop 1 invariant ghost.txIns == 1 && ghost.txIn == walletMainUtxo.Value && ghost.txOuts == 0
 //@   loop 2 invariant ghost.txOuts == rangeidx2 && ghost.txIns == 1 && ghost.txIn == walletMainUtxo.Value
